@@ -151,6 +151,10 @@ def run_one(prop, seed, index, tier, options):
             # the replay regenerates the run, which is a pure function of (seed, index, tier)
             spec = {'prop': prop.id, 'regenerate': [seed, index, tier, options]}
             return spec, _crash_result(prop, e.signal, 'during the dry runs of run generation')
+        from depsim import gen
+        if getattr(prop, 'build_variants', None) and 'build' not in spec:
+            # which build of parsing.h the run uses: the flags of the shipped extension, or assertions alive
+            spec['build'] = gen.stream(seed, prop.id + ':build', index).choice(prop.build_variants)
         return spec, execute_spec(prop, spec, cap)
     faulthandler.dump_traceback_later(cap, exit=True)
     try:
@@ -165,6 +169,12 @@ def _regen_and_execute(prop, spec):
     return prop.execute(prop.generate(seed, index, tier, options))
 
 
+def _execute_built(prop, spec, *args):
+    from depsim import cemu
+    cemu.select_variant(spec.get('build', 'release'))
+    return prop.execute(spec, *args)
+
+
 def execute_spec(prop, spec, cap=300, executor_mode=None):
     if spec.get('regenerate'):
         try:
@@ -177,8 +187,8 @@ def execute_spec(prop, spec, cap=300, executor_mode=None):
         return prop.execute(spec) if executor_mode is None else prop.execute(spec, executor_mode)
     try:
         if executor_mode is None:
-            return isolated(prop.execute, spec, wall_cap=cap)
-        return isolated(prop.execute, spec, executor_mode, wall_cap=cap)
+            return isolated(_execute_built, prop, spec, wall_cap=cap)
+        return isolated(_execute_built, prop, spec, executor_mode, wall_cap=cap)
     except ChildCrashed as e:
         if e.signal:
             # the code under test killed its process: that is an observation, not a harness failure
